@@ -88,6 +88,7 @@ type Config struct {
 	// paths (the verdict is a violation anyway; a broken tree can explode the path space)
 	StopAfterViolation int
 	MaxWallS           int
+	Params             map[string]int
 }
 
 type Exec struct {
@@ -549,6 +550,14 @@ func (e *Exec) recordViolation(label string) {
 		}
 	}
 	m := e.sol.Values(vars)
+	// Replay-friendly counterexample: natively the clock is the real one. Prefer a model whose
+	// clock readings lie in a window starting now and whose other 64-bit inputs (data
+	// timestamps) lie outside it, so that every comparison between a clock reading and a data
+	// timestamp comes out natively as in the model. Only a preference: if it is not
+	// satisfiable together with the path and the violated assertion, the first model is kept.
+	if pm := e.replayFriendlyModel(vars); pm != nil {
+		m = pm
+	}
 	vals := map[string]uint64{}
 	var order []string
 	for _, n := range e.nondets {
@@ -574,6 +583,36 @@ func (e *Exec) recordViolation(label string) {
 	v = &Violation{Trail: tr, Label: label, Harness: e.harness, Values: vals, Order: order, Where: e.where(), Count: 1, Path: pv}
 	e.Violations[label] = v
 	e.VioOrder = append(e.VioOrder, label)
+}
+
+func (e *Exec) replayFriendlyModel(vars []*Term) map[string]uint64 {
+	ts := e.ts
+	t0 := uint64(time.Now().UnixNano())
+	lo, hi := ts.Const(64, t0), ts.Const(64, t0+uint64(4*time.Hour))
+	wlo, whi := ts.Const(64, t0-uint64(24*time.Hour)), ts.Const(64, t0+uint64(28*time.Hour))
+	pref := ts.True
+	nclk := 0
+	for _, n := range e.nondets {
+		if n.T == nil || n.T.Op != OpVar || n.T.W != 64 {
+			continue
+		}
+		if strings.HasPrefix(n.Name, "now") {
+			nclk++
+			pref = ts.And(pref, ts.And(ts.Cmp(OpUle, lo, n.T), ts.Cmp(OpUle, n.T, hi)))
+		} else {
+			pref = ts.And(pref, ts.Or(ts.Cmp(OpUlt, n.T, wlo), ts.Cmp(OpUlt, whi, n.T)))
+		}
+	}
+	if nclk == 0 {
+		return nil
+	}
+	e.sol.Push()
+	defer e.sol.Pop(1)
+	e.sol.Assert(pref)
+	if e.sol.Check() != Sat {
+		return nil
+	}
+	return e.sol.Values(vars)
 }
 
 // goPanic handles a Go panic (explicit or implicit) that is certain on this path.
